@@ -593,6 +593,7 @@ def main_import(args):
 
     if paths is None:
         _print_err("Import failed.")
+        sys.exit(1)
     elif len(paths):
         _print_err(f"Imported {len(paths)} job(s).")
     elif paths is not None:
